@@ -1,6 +1,7 @@
 (* ApiPrintf.v — correspondence entry points for C18.  Definitions only. *)
 From Coq Require Import ZArith List Bool.
-From Mpir Require Import Word RadixDefs PrintfDefs ApiBasic.
+From Mpir Require Import Word RadixDefs PrintfDefs ApiBasic DoscanDefs.
+From MpirGen Require Import Gen_Consts.
 Import ListNotations.
 Local Open Scope Z_scope.
 
@@ -130,3 +131,40 @@ Definition api_ffmtcheck : api := fun t =>
   (* |D un / ud - vn / vd| * 2000 <= 1001 un / ud   <=>   |D un vd - vn ud| * 2000 <= 1001 un vd *)
   let ok := Z.abs (D * un * vd - vn * ud) * 2000 <=? (if conv =? 101 then 1001 else 1010) * un * vd in
   [TZ (b2z (shape && ok))].
+
+(* ---- gmp_sscanf / gmp_fscanf through the as-coded model of doscan.c (DoscanDefs.v):
+   gmp_doscan x:format x:input x:slots mode : slots = one letter per pointer argument (Z mpz, Q mpq, l long, d int, h short,
+   c char); result: return value, input bytes consumed, then the content of every argument after the call (an argument the
+   call did not reach keeps the sentinel the harness put there).  -99 / -98: outside the modelled directives (never generated). *)
+Definition scan_sentinel (k : Z) : list tok :=
+  if k =? 90 then [TZ 77777]                                    (* Z *)
+  else if k =? 81 then [TZ 77777; TZ 7]                         (* Q *)
+  else if k =? 108 then [TZ 6510615555426900570]                (* l: 0x5A5A5A5A5A5A5A5A *)
+  else if k =? 100 then [TZ 1515870810]                         (* d: 0x5A5A5A5A *)
+  else if k =? 104 then [TZ 23130]                              (* h: 0x5A5A *)
+  else [TZ 90].                                                 (* c: 0x5A *)
+Fixpoint scan_slots (slots : list Z) (st : list sv) : option (list tok) :=
+  match slots with
+  | [] => match st with [] => Some [] | _ => None end
+  | k :: ks =>
+      match st with
+      | [] => match scan_slots ks [] with Some r => Some (scan_sentinel k ++ r) | None => None end
+      | v :: vs =>
+          let this :=
+            match v with
+            | SVZ z => if k =? 90 then Some [TZ z] else None
+            | SVQ n d => if k =? 81 then Some [TZ n; TZ d] else None
+            | SVL x => if (k =? 108) || (k =? 100) then Some [TZ x] else None
+            | SVN n => if k =? 81 then Some [TZ n; TZ 1] else Some [TZ n]
+            | SVfail => None
+            end in
+          match this, scan_slots ks vs with Some a, Some r => Some (a ++ r) | _, _ => None end
+      end
+  end.
+Definition api_gmp_doscan : api := fun a =>
+  let '(ret, st, ncons) := doscan digit_value_tab (argb a 0) (argb a 1) in
+  if ret =? -99 then [TZ (-99)]
+  else match scan_slots (argb a 2) st with
+       | Some r => TZ ret :: TZ ncons :: r
+       | None => [TZ (-98)]
+       end.
